@@ -153,7 +153,7 @@ func (r *Run) enterBlock(st *State, fr *Frame, to *ssa.BasicBlock) bool {
 				e.obligationClause(st, fr, fmt.Sprintf("%s/loop%d/preserve:%s", fname, li.Ordinal, c.Label()), c, nil)
 			}
 			for _, oc := range outer {
-				e.obligationClause(st, oc.fr, fmt.Sprintf("%s/loop:%s/preserve:%s", e.fnName[oc.fr.Fn], oc.cl.Words[0], oc.cl.Label()), oc.cl, nil)
+				e.obligationClause(st, fr, fmt.Sprintf("%s/loop:%s/preserve:%s", e.fnName[oc.fr.Fn], oc.cl.Words[0], oc.cl.Label()), oc.cl, r.outerVars(st, oc.fr))
 			}
 			r.checkLoopLocks(st, fr, li, "preserve")
 			r.checkPendingDefers(st, fr, li, "preserve")
@@ -164,7 +164,7 @@ func (r *Run) enterBlock(st *State, fr *Frame, to *ssa.BasicBlock) bool {
 			e.obligationClause(st, fr, fmt.Sprintf("%s/loop%d/entry:%s", fname, li.Ordinal, c.Label()), c, nil)
 		}
 		for _, oc := range outer {
-			e.obligationClause(st, oc.fr, fmt.Sprintf("%s/loop:%s/entry:%s", e.fnName[oc.fr.Fn], oc.cl.Words[0], oc.cl.Label()), oc.cl, nil)
+			e.obligationClause(st, fr, fmt.Sprintf("%s/loop:%s/entry:%s", e.fnName[oc.fr.Fn], oc.cl.Words[0], oc.cl.Label()), oc.cl, r.outerVars(st, oc.fr))
 		}
 		r.checkPendingDefers(st, fr, li, "entry")
 		// remember lockset at loop head
@@ -175,7 +175,7 @@ func (r *Run) enterBlock(st *State, fr *Frame, to *ssa.BasicBlock) bool {
 			st.assume(t)
 		}
 		for _, oc := range outer {
-			st.assume(e.evalClause(st, oc.fr, oc.cl, nil))
+			st.assume(e.evalClause(st, fr, oc.cl, r.outerVars(st, oc.fr)))
 		}
 		fr.Prev = from
 		fr.Block = to
@@ -220,8 +220,23 @@ func (r *Run) loopInvariants(fn *ssa.Function, ord int) []*Clause {
 
 // outerLoopInvariants: clauses `loop inlinedFn>n invariant ...` in the blocks of enclosing frames.
 type outerInv struct {
-	fr *Frame
+	fr *Frame // the enclosing frame whose block holds the clause
 	cl *Clause
+}
+
+// outerVars: parameters and locals of an enclosing frame, visible (unless shadowed) to a qualified clause
+// that is evaluated inside an inlined callee.
+func (r *Run) outerVars(st *State, outer *Frame) map[string]SV {
+	m := map[string]SV{}
+	for name, c := range outer.Cells {
+		m[name] = SV{V: st.Cells[c], T: c.Typ}
+	}
+	for i, p := range outer.Fn.Params {
+		if _, ok := m[p.Name()]; !ok && i < len(outer.Args) {
+			m[p.Name()] = SV{V: outer.Args[i], T: p.Type()}
+		}
+	}
+	return m
 }
 
 func (r *Run) outerLoopInvariants(st *State, fr *Frame, ord int) []outerInv {
@@ -331,10 +346,16 @@ func (r *Run) havocLoop(st *State, fr *Frame, li *LoopInfo) {
 	cellSeen := map[*Cell]bool{}
 	regions := map[string]bool{}
 	all := false
+	whole := map[*Cell]bool{}   // cells assigned as a whole (not just through an element)
+	elemRegions := map[string]bool{} // slice fields written only through elements
+	elemMode := false
 	addCell := func(c *Cell) {
 		if c != nil && !cellSeen[c] {
 			cellSeen[c] = true
 			cells = append(cells, c)
+		}
+		if c != nil && !elemMode {
+			whole[c] = true
 		}
 	}
 	var scanInstr func(f *Frame, fn *ssa.Function, in ssa.Instruction, binds []Val)
@@ -378,11 +399,13 @@ func (r *Run) havocLoop(st *State, fr *Frame, li *LoopInfo) {
 				if u, ok := a.X.(*ssa.UnOp); ok && u.Op == token.MUL {
 					switch o := u.X.(type) {
 					case *ssa.Alloc, *ssa.FreeVar:
+						elemMode = true
 						addCell(resolveCell(f, fn, o, binds))
+						elemMode = false
 					case *ssa.FieldAddr:
 						st := o.X.Type().Underlying().(*types.Pointer).Elem()
 						fld := st.Underlying().(*types.Struct).Field(o.Field)
-						regions[fieldRegionName(e.structKey(st), fld.Name())] = true
+						elemRegions[fieldRegionName(e.structKey(st), fld.Name())+".at"] = true
 					default:
 						all = true
 					}
@@ -444,6 +467,9 @@ func (r *Run) havocLoop(st *State, fr *Frame, li *LoopInfo) {
 		for n := range regions {
 			names = append(names, n)
 		}
+		for n := range elemRegions {
+			names = append(names, n)
+		}
 		sort.Strings(names)
 		for _, n := range names {
 			for rn := range e.regions {
@@ -475,6 +501,14 @@ func (r *Run) havocLoop(st *State, fr *Frame, li *LoopInfo) {
 	st.Facts["loophavoc"] = "1"
 	sort.Slice(cells, func(i, j int) bool { return cells[i].ID < cells[j].ID })
 	for _, c := range cells {
+		if old, ok := st.Cells[c].(*SliceV); ok && !whole[c] {
+			// only elements are assigned in the loop: length and nil-ness are unchanged
+			n := *old
+			n.At = e.freshFun("loop_"+c.Name+"_at", []Sort{SInt}, old.Elem)
+			n.Org = nil
+			st.Cells[c] = &n
+			continue
+		}
 		st.Cells[c] = e.freshVal(st, c.Typ, "loop_"+c.Name)
 		if c.Name == "rangeindex" {
 			// the hidden index of a range-over-slice loop starts at -1 and is only incremented
@@ -862,6 +896,17 @@ func (r *Run) alloc(st *State, fr *Frame, x *ssa.Alloc) Val {
 	st.Cells[c] = e.zeroVal(st, et)
 	if x.Comment != "" {
 		fr.Cells[x.Comment] = c
+		if fr.CellsAll == nil {
+			fr.CellsAll = map[string][]*Cell{}
+		}
+		// one entry per declaration site: a re-executed Alloc (loop body) replaces its previous cell
+		ord := allocOrdinal(fr.Fn, x)
+		lst := fr.CellsAll[x.Comment]
+		for len(lst) <= ord {
+			lst = append(lst, nil)
+		}
+		lst[ord] = c
+		fr.CellsAll[x.Comment] = lst
 	}
 	return &Addr{Kind: ACell, Cell: c, FieldT: et}
 }
@@ -879,6 +924,22 @@ func isObjectStruct(t types.Type) bool {
 		return true
 	}
 	return false
+}
+
+// allocOrdinal: index of this Alloc among the Allocs of its function that declare the same source name.
+func allocOrdinal(fn *ssa.Function, x *ssa.Alloc) int {
+	n := 0
+	for _, b := range fn.Blocks {
+		for _, in := range b.Instrs {
+			if al, ok := in.(*ssa.Alloc); ok && al.Comment == x.Comment {
+				if al == x {
+					return n
+				}
+				n++
+			}
+		}
+	}
+	return n
 }
 
 func (e *Engine) nextCell() int { e.cellSeq++; return e.cellSeq }
@@ -1639,6 +1700,10 @@ func (r *Run) typeAssert(st *State, fr *Frame, x *ssa.TypeAssert) []*State {
 	if toIface {
 		res = v
 		isT = And(isT, Not(Eq(v, NilOf(SAny))))
+		if types.AssignableTo(x.X.Type(), at) {
+			// the static type already implements the asserted interface: only nil fails
+			isT = Not(Eq(v, NilOf(SAny)))
+		}
 	} else if so == "" || so == SAny {
 		if sv, ok := e.boxedSlices[v.S]; ok {
 			res = sv
